@@ -501,6 +501,8 @@ func init() {
 		b := append([]byte{b0, 0, 0}, rests[ri]...)
 		ref := append([]byte{}, b...)
 		n := 0
+		src := bytes.NewReader(nil)
+		br := bufio.NewReaderSize(src, 64)
 		for v1 := 0; v1 < 256; v1++ {
 			for v2 := 0; v2 < 256; v2++ {
 				b[1], b[2] = byte(v1), byte(v2)
@@ -513,6 +515,21 @@ func init() {
 				}
 				if k := judge(b, t, err); k != "" {
 					report(x, fs, b, k)
+				}
+				// the reader-based entry points see the same bytes: same answer, and ScanBuf only peeks
+				src.Reset(b)
+				br.Reset(src)
+				t2, err2 := imagetype.ScanBuf(br)
+				if t2 != t || (err2 == nil) != (err == nil) {
+					report(x, fs, b, "ScanBuf-differs-from-Buf")
+				}
+				if w, _ := br.Peek(len(b)); !bytes.Equal(w, b) {
+					report(x, fs, b, "ScanBuf-consumed-bytes")
+				}
+				src.Reset(b)
+				t3, err3 := imagetype.Scan(struct{ io.Reader }{src})
+				if t3 != t || (err3 == nil) != (err == nil) {
+					report(x, fs, b, "Scan-differs-from-Buf")
 				}
 			}
 		}
@@ -623,7 +640,7 @@ func init() {
 				{Name: "splices", H: h3, NoLevels: true, Rule: "ordered pairs of canonical headers x one or two predicate byte ranges taken from the second; trivial when both headers are the same"},
 				{Name: "lengths-and-suffixes", H: h4, NoLevels: true, Rule: "canonical header x every length 0..24 x suffix menu (1 byte, 4 KiB of 0xFF, two foreign headers, and every signature token any predicate looks for placed at bytes 24.., 28.. and repeated)"},
 			}
-			sp = append(sp, mc.Space{Name: "three-byte-prefixes", H: h5, NoLevels: true, Rule: "all 2^24 values of bytes 0..2 in front of 4 fixed rests (filler, a TIFF header at 3, the rest of an ftyp box, the rest of a JFIF header): Buf against the table, and the 24-byte window must come back unchanged"})
+			sp = append(sp, mc.Space{Name: "three-byte-prefixes", H: h5, NoLevels: true, Rule: "all 2^24 values of bytes 0..2 in front of 4 fixed rests (filler, a TIFF header at 3, the rest of an ftyp box, the rest of a JFIF header): Buf against the table, and the 24-byte window must come back unchanged; ScanBuf and Scan on the same bytes give the same answer and ScanBuf leaves every byte in its reader"})
 			sp = append(sp, mc.Space{Name: "decode-type-with-late-header", H: h7, NoLevels: true, Rule: "a HEIF header followed by filler and an Exif block at every offset in 24..113, 4030..4119, 8100..8189, 12170..12259 (around the refills of the 4096-byte reader), with and without a JPEG / BMP / PNG signature 40 bytes before the block: imagemeta.Decode reports the type of the first 24 bytes and decodes the block"})
 			sp = append(sp, mc.Space{Name: "decode-on-a-positioned-reader", H: h6, NoLevels: true, Rule: "every seed behind every canonical header of another format, behind 100 filler bytes and behind 4096 bytes of 0xFF, handed to imagemeta.Decode as a ReadSeeker standing at the start of the seed (with and without a ReadAt method): type, record and error equal those of the seed alone"})
 			if tier == "thorough" {
